@@ -312,8 +312,66 @@ func recordCallers(prog *ssa.Program, pkgs []*packages.Package, out *Out) {
 			}
 		}
 	}
-	var isLength func(v ssa.Value, depth int, seen map[ssa.Value]bool) (bool, string)
-	isLength = func(v ssa.Value, depth int, seen map[ssa.Value]bool) (bool, string) {
+	// frame: the value being followed lies in the body of fn, entered through the results of one call: the parameters
+	// of fn stand for the arguments of THAT call (evaluated in the caller: its seen set and its own frame)
+	type frame struct {
+		fn     *ssa.Function
+		args   []ssa.Value
+		seen   map[ssa.Value]bool
+		parent *frame
+	}
+	var isLengthIn func(v ssa.Value, depth int, seen map[ssa.Value]bool, fr *frame) (bool, string)
+	// resultIsLength: result number idx of the call is a length: the call is the builtin len, or a static call of a
+	// function of the module (with a body, without a recover block that could replace the results) every Return of which
+	// returns a length in that position.  A callee already being followed (recursion) is not resolved.
+	resultIsLength := func(x *ssa.Call, idx int, depth int, seen map[ssa.Value]bool, fr *frame) (bool, string) {
+		if bi, ok := x.Common().Value.(*ssa.Builtin); ok && bi.Name() == "len" && idx == 0 {
+			return true, "len(..)"
+		}
+		name := "result of " + x.Common().Value.Name()
+		sc := x.Common().StaticCallee()
+		if sc == nil || sc.Pkg == nil || sc.Pkg.Pkg == nil || len(sc.Blocks) == 0 || sc.Recover != nil {
+			return false, name
+		}
+		if pp := sc.Pkg.Pkg.Path(); pp != mod && !strings.HasPrefix(pp, mod+"/") {
+			return false, name
+		}
+		for f := fr; f != nil; f = f.parent {
+			if f.fn == sc {
+				return false, name + " (recursive)"
+			}
+		}
+		inner := &frame{fn: sc, args: x.Common().Args, seen: seen, parent: fr}
+		innerSeen := map[ssa.Value]bool{}
+		why, n := "", 0
+		for _, b := range sc.Blocks {
+			for _, ins := range b.Instrs {
+				ret, ok := ins.(*ssa.Return)
+				if !ok {
+					continue
+				}
+				if idx >= len(ret.Results) {
+					return false, name
+				}
+				ok, w := isLengthIn(ret.Results[idx], depth+1, innerSeen, inner)
+				if !ok {
+					return false, w + " returned by " + sc.Name()
+				}
+				if w != "" {
+					why = w
+				}
+				n++
+			}
+		}
+		if n == 0 {
+			return false, name
+		}
+		return true, why + " returned by " + sc.Name()
+	}
+	isLengthIn = func(v ssa.Value, depth int, seen map[ssa.Value]bool, fr *frame) (bool, string) {
+		isLength := func(v ssa.Value, depth int, seen map[ssa.Value]bool) (bool, string) {
+			return isLengthIn(v, depth, seen, fr)
+		}
 		if v == nil || depth > 8 {
 			return false, "?"
 		}
@@ -328,10 +386,11 @@ func recordCallers(prog *ssa.Program, pkgs []*packages.Package, out *Out) {
 			}
 			return false, "constant " + x.String()
 		case *ssa.Call:
-			if bi, ok := x.Common().Value.(*ssa.Builtin); ok && bi.Name() == "len" {
-				return true, "len(..)"
+			return resultIsLength(x, 0, depth, seen, fr)
+		case *ssa.Extract:
+			if c, ok := x.Tuple.(*ssa.Call); ok {
+				return resultIsLength(c, x.Index, depth, seen, fr)
 			}
-			return false, "result of " + x.Common().Value.Name()
 		case *ssa.Convert:
 			if b, ok := x.Type().Underlying().(*types.Basic); ok && b.Info()&types.IsInteger != 0 {
 				return isLength(x.X, depth+1, seen)
@@ -380,6 +439,14 @@ func recordCallers(prog *ssa.Program, pkgs []*packages.Package, out *Out) {
 					idx = i
 				}
 			}
+			if idx >= 0 && fr != nil && fr.fn == f {
+				// the body of f is being followed for the results of one call: the parameter is that call's argument
+				if idx >= len(fr.args) {
+					return false, "parameter " + x.Name() + " of " + f.Name()
+				}
+				delete(seen, v) // decided per call, not once for the function
+				return isLengthIn(fr.args[idx], depth+1, fr.seen, fr.parent)
+			}
 			if idx < 0 || token.IsExported(f.Name()) || asValue[f] || len(sites[f]) == 0 {
 				return false, "parameter " + x.Name() + " of " + f.Name()
 			}
@@ -419,7 +486,7 @@ func recordCallers(prog *ssa.Program, pkgs []*packages.Package, out *Out) {
 				if strings.HasSuffix(pos.Filename, "_test.go") {
 					continue
 				}
-				okLen, why := isLength(ci.Common().Args[1], 0, map[ssa.Value]bool{})
+				okLen, why := isLengthIn(ci.Common().Args[1], 0, map[ssa.Value]bool{}, nil)
 				out.MetricsCallers = append(out.MetricsCallers, J{"pos": fmt.Sprintf("%s:%d", shortFile(pos.Filename), pos.Line),
 					"size_arg": why, "nonneg": okLen, "func": fnName(rootFn(f))})
 			}
